@@ -117,8 +117,17 @@ def w_long(job):
         shutil.rmtree(d, ignore_errors=True)
 
 
+def regen_api():
+    """CmGen/Api.lean: Color / ColorPair / make_readable / make_readable_bulk as they read now (the `source_*` theorems of
+    CmProps/C17api.lean identify them with the model)"""
+    from translate import api
+    api.generate()
+
+
 def check(run):
-    run.proof = proof_status("C17")
+    run.proof = proof_status("C17", regenerate=regen_api)
+    from translate import api as _api
+    run.extra["source_translation_api"] = _api.summary()
     q = run.quick()
     repo_import()
     from opt_common import pool
